@@ -167,6 +167,32 @@ def run(run, binfo):
                                    'expected': 'rejected at load, or deny for all credentials', 'observed': g})
                 else:
                     run.nontrivial.add(repr(v))
+    # rule-shaped list values: the decision is the documented OR of ANDs, where a member that is not
+    # of the form kind:match behaves as '!'  (extracted spec_list)
+    from common import S
+    shaped_lists = [v for v, sp in zip(vals, specv) if bool(sp[0]) and isinstance(v, list)]
+    shaped_lists += [[['']], [['', '']], [['', '@']], [['', 'role:admin']], [['role:admin', '']], [[''], ['role:admin']],
+                     [['x']], [['x', '@']], ['', ['@']], [['@', '@'], ['']]]
+    role_sets = [[], ['admin'], ['a']]
+    lreqs = [[6, [], enc_jv(v), [S(r) for r in rs]] for v in shaped_lists for rs in role_sets]
+    lans = run_batch(lreqs)
+    k = 0
+    from oslo_policy import policy
+    e = enforcer()
+    for v in shaped_lists:
+        e.set_rules(policy.Rules.from_dict({'the_rule': v}), use_conf=False)
+        for rs in role_sets:
+            shaped, want = lans[k]
+            k += 1
+            run.evaluations += 1
+            try:
+                got = bool(e.enforce('the_rule', {}, {'roles': rs}))
+            except Exception as ex:   # noqa
+                got = 'EXC ' + type(ex).__name__
+            if shaped and got != bool(want):
+                run.violation('list-member', 'list rule %r with roles %r decides %r, documented %r' % (v, rs, got, bool(want)),
+                              {'kind': 'failing-input', 'suite': 'spec-c02', 'input': {'value': v, 'how': 'from_dict'},
+                               'expected': bool(want), 'observed': got})
     run.count('rule_values', len(vals))
     run.sample({'suite': 'spec-c02 value', 'value': vals[20]})
 
